@@ -116,6 +116,10 @@ class V(list):
     """violation collector"""
 
     def add(self, prop, oracle, cls, where="", detail=""):
+        if cls == "mismatch":
+            # 'where' is part of a violation's identity only for escaped exceptions and
+            # non-termination (innermost library function); for mismatches it is context
+            where, detail = "", ("[%s] %s" % (where, detail) if where else detail)
         self.append({"prop": prop, "oracle": oracle, "cls": cls, "where": where, "detail": str(detail)[:300]})
 
 
@@ -554,3 +558,82 @@ def _in_source(g, circuit):
     from . import extract
 
     return any(g is h for h in extract.iter_gates(circuit))
+
+
+# ------------------------------------------------------------------------------ shrinking
+
+
+def candidates(plan):
+    """Smaller / simpler plans, each a valid replay file."""
+    from .shrink import ast_candidates
+
+    def variant(**kw):
+        p = copy.deepcopy(plan)
+        p.update(kw)
+        p["tapes"] = None
+        return p
+
+    if plan["cfg"].get("layout_noise"):
+        c = copy.deepcopy(plan["cfg"])
+        c["layout_noise"] = 0.0
+        yield variant(cfg=c)
+    if plan["rerun"]:
+        yield variant(rerun=False)
+    if plan["pipeline"] != "plain":
+        yield variant(pipeline="plain")
+    if plan["sampler_mode"] != "faithful":
+        yield variant(sampler_mode="faithful")
+    if plan["bounding"] != "native":
+        yield variant(bounding="native")
+    for k in list(plan["overrides"] or {}):
+        ov = dict(plan["overrides"])
+        del ov[k]
+        yield variant(overrides=ov)
+    for prog in ast_candidates(plan["prog"]):
+        ov = {k: v for k, v in (plan["overrides"] or {}).items() if any(k == nm for nm, _ in prog["lets"])}
+        try:
+            progast.resolve(prog, ov, executable=True)
+        except progast.Invalid:
+            continue
+        yield variant(prog=prog, overrides=ov)
+
+
+# ------------------------------------------------------------------------------ evidence
+
+RULE = {
+    "*": (
+        "One evaluation = one simulated execution: a swarm-configured, seeded executable Jaqal program (AST + let-override "
+        "dictionary) evaluated by the reference Jaqal machine under two seeded gate-granularity schedules of its parallel branches, "
+        "and run through the real parser/passes/emulator/result pipeline (up to three renderings: layout-noised, permuted written "
+        "branch order, subcircuits spelled out) under the simulator-owned sampler, the step clock and the hardware stub. "
+        "Distinct = distinct event-log digest (outcome classes and result digests of every pipeline step); non-trivial = the "
+        "program executes at least one loop, parallel block or macro call."
+    )
+}
+ASSUMPTIONS = [
+    "the reference machine R2, the resolver R1 and the meaning extractor X are trusted (cross-checked against each other: two schedules per run, twin renderings)",
+    "gate matrices are shared between emulator and reference: the property is how U_j is applied, not what U_j is",
+    "bounds: n<=4 qubits, <=25 generated statements, nesting<=5, loop counts<=3, a bracket's prepare and measure share their chain of enclosing loops",
+    "sampling, not enumeration: a clean batch is evidence over the seeds run",
+    "the step clock sees Python line events only; a hang inside C code would surface as a wall-clock kill (exit 2), not as a verdict",
+]
+EXPECTED_PROBES = {
+    "C03": ["feat:parallel_block", "branch_order_permuted", "feat:alias_chain_depth>=2", "feat:macro_call", "overrides", "rerun_same_object", "feat:idle_gate", "feat:gate_without_unitary", "feat:let_sized_register", "feat:strided_slice"],
+    "C08": ["zero_loop_around_bracket", "feat:zero_loop", "feat:loop_count_by_name", "let_overridden_to_0", "feat:repeated_prepare", "feat:trailing_prepare", "feat:macro_call", "hw_three_encodings", "feat:subcircuit_block"],
+    "C09": ["c09_pair", "c09_structure", "feat:macro_call", "feat:loop"],
+    "C15": ["hw_three_encodings", "sampler_outcome_p<0.01", "visits"],
+}
+
+
+def sample_view(r):
+    p = r["plan"]
+    return {
+        "run_seed": r["seed"],
+        "program": r.get("text"),
+        "overrides": p["overrides"],
+        "pipeline": p["pipeline"],
+        "sampler_mode": p["sampler_mode"],
+        "hw_encoding": p["hw_encoding"],
+        "event_log": r.get("log"),
+        "violations": r.get("violations"),
+    }
